@@ -3,6 +3,20 @@
 HOOK_COMMITS = []
 
 PROPS = {
+    "C18": {
+        "level": "proof",
+        "rule": "pairs (type / domain goal or clause conclusion / argument list) derived from a common ancestor by replacing subterms with "
+                "bound or inference variables (unifiable by construction, 40%), then edited in one constructor (30%) or independent (30%); "
+                "variance tables well-formed or (10%) too short; plus generated programs (structs with variances, traits, 2-6 impls) lowered "
+                "by chalk with 4 impls_for_trait queries each; non-trivial = the filter said false / dropped an impl / panicked",
+        "technique": "Lean 4 theorems (no pair with a common instance is rejected; impls_for_trait keeps every such impl) + differential correspondence + real unifier as oracle",
+        "claim": "couldMatch_of_unifiable and implsFor_superset are proved for every pair of terms of the model and every folder pair (any "
+                 "substitution of bound/inference variables/placeholders); could_match booleans and impls_for_trait id lists are compared "
+                 "exactly with the model; on the implementation every rejected pair / dropped impl is re-checked with the real InferenceTable::relate.",
+        "note": "Trusted: Lean kernel, model fidelity (differential), harness. The second DESIGN theorem (false => relate fails for every table) needs the "
+                "unifier model and is covered here only by running the real unifier on each rejected pair.",
+        "correspondence": "cmTy/cmDomainGoal/cmSlice/implsForTrait (lean/ChalkModel/CouldMatch.lean) vs chalk_ir::could_match and Program::impls_for_trait",
+    },
     "C25": {
         "level": "proof",
         "rule": "type-directed random terms (all 25 TyKind variants, lifetimes/consts of every kind, dyn and fn-pointer binders, "
